@@ -271,7 +271,7 @@ def r3_close(ctx):
     for body in F.bodies(crate="quiver_io"):
         if body.key.endswith("EffectBackend>::close_resource"):
             fl = Flow(body)
-            rm = [bi for bi, t in body.calls() if (t.get("callee") or "").endswith("HashMap::remove") and t["args"]
+            rm = [bi for bi, t in body.calls() if (t.get("callee") or "").split("::")[-1] in ("remove", "remove_entry") and t["args"]
                   and fl.mentions_field(fl.canon_op(t["args"][0]) or (0, ()), "NativeEffectBackend", "resources")]
             ctx.check(bool(rm), R, body.key + "|registry-remove", "backend close_resource removes the registry entry (drop closes the descriptor)",
                       "backend close_resource no longer removes the registry entry", body.loc(0))
